@@ -1490,17 +1490,29 @@ class PreviewTree:
         segments = osutils.splitpath(path)
         cur_parent = self._transform.root
         for cur_segment in segments:
+            matches = []
             for child in self._all_children(cur_parent):
                 final_name = self._final_name_cache.get(child)
                 if final_name is None:
                     final_name = self._transform.final_name(child)
                     self._final_name_cache[child] = final_name
                 if final_name == cur_segment:
-                    cur_parent = child
-                    break
-            else:
+                    matches.append(child)
+            if not matches:
                 self._path2trans_id_cache[path] = None
                 return None
+            if len(matches) > 1:
+                # An entry that the transform removes keeps its name: prefer
+                # the entry that exists in the final tree.
+                live = [
+                    child
+                    for child in matches
+                    if self._transform.final_kind(child) is not None
+                    or self._transform.final_is_versioned(child)
+                ]
+                if live:
+                    matches = live
+            cur_parent = matches[0]
         self._path2trans_id_cache[path] = cur_parent
         return cur_parent
 
